@@ -29,6 +29,9 @@ type repCase struct {
 	// having rendered them must not change what a later en / ja report shows).
 	Earlier []string `json:"earlier_language_options,omitempty"`
 	Warmup  []string `json:"reports_built_before,omitempty"`
+	// Assign: exported fields of the decoded object assigned (defined values) before the
+	// report is built; the report must show the object as it is then
+	Assign []fieldSet `json:"fields_assigned_after_decode,omitempty"`
 }
 
 func scoreText(f float64) string { return strconv.FormatFloat(f, 'f', -1, 64) }
@@ -152,6 +155,11 @@ var checkC17 = register("C17/report", func(c repCase) string {
 	o, err := decode3(level, c.Vector, false)
 	if err != nil || o.isNil() {
 		return fmt.Sprintf("well-formed vector rejected: %v", err)
+	}
+	for _, as := range c.Assign {
+		if m := metricOf(3, as.Field); m != nil && m.Level <= level && as.Index >= 0 && as.Index < len(m.Codes) {
+			subject{ver: 3, o3: o}.setField(as.Field, constOf(3, as.Field, as.Index))
+		}
 	}
 	for _, w := range c.Warmup {
 		buildReport(o, level, report.WithOptionsLanguage(language.Make(w)))
@@ -349,6 +357,18 @@ func TestC17(t *testing.T) {
 		}
 		if rapid.IntRange(0, 3).Draw(rt, "warmup") == 0 { // reports in unspecified variant tags built first
 			cs.Warmup = rapid.SliceOfN(rapid.SampledFrom(variantTags), 1, 2).Draw(rt, "warm")
+		}
+		if lv > spec.Base && rapid.IntRange(0, 3).Draw(rt, "assign") == 0 { // optional metrics assigned after the decode
+			var opt []*spec.Metric
+			for _, m := range spec.UpTo(spec.V3Metrics, lv) {
+				if m.Level > spec.Base {
+					opt = append(opt, m)
+				}
+			}
+			for n := rapid.IntRange(1, 3).Draw(rt, "nassign"); n > 0; n-- {
+				m := rapid.SampledFrom(opt).Draw(rt, "afield")
+				cs.Assign = append(cs.Assign, fieldSet{Field: m.Name, Index: rapid.IntRange(1, len(m.Codes)-1).Draw(rt, "aidx")})
+			}
 		}
 		// non-triviality: distinct triples and >= 2 distinct severities across levels
 		nt := false
